@@ -203,7 +203,13 @@ def run(scn, sb):
         if 'normalization' in over:
             dcfg['type_assignment']['normalization'] = over['normalization']
         if case == 'output_dir_missing':
-            dcfg['csv_result_path'] = os.path.join(sb.p('out'), 'no_such_dir', 'x.csv')
+            # one of the requested outputs lies in a directory that does not exist (the JSON one is checked before
+            # the run proper starts, the others when they are written)
+            which = rng.choice(['csv_result_path', 'csv_result_path', 'extended_result_path', 'hdf5_result_path'])
+            if dcfg.get(which) is None:
+                which = 'csv_result_path'
+            dcfg[which] = os.path.join(sb.p('out'), 'no_such_dir', 'x' + os.path.splitext(dcfg[which])[1])
+            res['probes']['missing_dir_for_' + which] = 1
         sched = dict(scn['sched'])
         if case == 'worker':
             f = scn['fault']
